@@ -551,6 +551,13 @@ func IfEdges(fn *ssa.Function, match func(c ssa.Value) (bool, bool)) (EdgeSet, [
 		}
 		ok, side := match(iff.Cond)
 		if !ok {
+			// a named boolean computed earlier in value form (`need := a || b; … if need {`): the phi lives in another
+			// block. Knowing the phi's value means having arrived there on one of the edges that can carry that value;
+			// the test establishes the fact when every such edge does.
+			if s, hit := remoteBoolPhi(b, iff, match); hit {
+				es[Edge{b, s, -1}] = true
+				ifs = append(ifs, iff)
+			}
 			continue
 		}
 		if side {
@@ -561,6 +568,67 @@ func IfEdges(fn *ssa.Function, match func(c ssa.Value) (bool, bool)) (EdgeSet, [
 		ifs = append(ifs, iff)
 	}
 	return es, ifs
+}
+
+// remoteBoolPhi: b ends in `if [!]*p` where p is a boolean phi defined in a dominating block. Returns the successor
+// index of b on which the fact accepted by match is established, if any.
+func remoteBoolPhi(b *ssa.BasicBlock, iff *ssa.If, match func(c ssa.Value) (bool, bool)) (int, bool) {
+	c := iff.Cond
+	flip := false
+	for {
+		u, ok := c.(*ssa.UnOp)
+		if !ok || u.Op != token.NOT {
+			break
+		}
+		c = u.X
+		flip = !flip
+	}
+	p, ok := c.(*ssa.Phi)
+	if !ok || p.Block() == b || !p.Block().Dominates(b) || !isBoolType(p.Type()) {
+		return 0, false
+	}
+	for _, want := range []bool{true, false} {
+		all, any := true, false
+		for k, e := range p.Edges {
+			if cv, isConst := ConstBool(e); isConst {
+				if cv != want {
+					continue // this edge cannot carry the value
+				}
+				// constant arriving from pred q: the branch that led from q to the phi's block
+				q := p.Block().Preds[k]
+				qi, isIf := lastInstr(q).(*ssa.If)
+				if !isIf {
+					all = false
+					break
+				}
+				ok, side := match(qi.Cond)
+				taken := q.Succs[0] == p.Block() // true successor leads to the phi
+				if q.Succs[0] == q.Succs[1] || !ok || side != taken {
+					all = false
+					break
+				}
+				any = true
+				continue
+			}
+			ok, side := match(e)
+			if !ok || side != want {
+				all = false
+				break
+			}
+			any = true
+		}
+		if all && any {
+			s := 0
+			if !want {
+				s = 1
+			}
+			if flip {
+				s = 1 - s
+			}
+			return s, true
+		}
+	}
+	return 0, false
 }
 
 // allInstrs iterates all instructions of fn.
@@ -679,6 +747,10 @@ func GuardOrPass(fn *ssa.Function, from ssa.Instruction, target ssa.Instruction,
 	cut := EdgeSet{}
 	for _, a := range alts {
 		es, _ := IfEdges(fn, a.Match)
+		cut.Add(es)
+	}
+	if len(alts) > 1 {
+		es, _ := IfEdges(fn, anyMatch(alts))
 		cut.Add(es)
 	}
 	avoid := map[ssa.Instruction]bool{}
